@@ -538,6 +538,7 @@ func runC20(c *run.Ctx, s *kit.Summary) {
 		flush(true)
 		return
 	}
+	wideDone := wideSeriesStart(r, s) // runs in the background (sleeps 1.2s), evaluated at the end
 	// defect witness first
 	fixed := []sequence{
 		{Results: []res{{Method: "GET", URL: "http://localhost/", Code: 500, BIn: 3, BOut: 4, Lat: 1000000, Err: "x"}}},
@@ -578,5 +579,8 @@ func runC20(c *run.Ctx, s *kit.Summary) {
 		flush(false)
 	}
 	flush(true)
+	wst := &kit.Stream{Name: "c20.wide_series"}
+	wideDone(wst)
+	wst.Diff(c.Driver, s)
 	attackRuns(c, r, s)
 }
